@@ -162,11 +162,16 @@ def verify(spec):
                     raise
                 outcomes['raise:' + type(e).__name__] = outcomes.get('raise:' + type(e).__name__, 0) + 1
                 env['__traceback'] = traceback.format_exc(limit=6)
+                if os.environ.get('PYVC_TB'):
+                    print(traceback.format_exc(limit=8), flush=True)
                 _exc_outcome(spec, env, e, c)
                 return ('raise', type(e).__name__)
             outcomes['return'] = outcomes.get('return', 0) + 1
             for tag, g in spec.post(env, r):
-                dec = (lambda m, env=env, r=r: spec.decode(env, m, r)) if spec.decode else None
+                if spec.decode and getattr(spec.decode, 'wants_tag', False):
+                    dec = (lambda m, env=env, r=r, tag=tag: spec.decode(env, m, r, tag))
+                else:
+                    dec = (lambda m, env=env, r=r: spec.decode(env, m, r)) if spec.decode else None
                 c.check(as_bool_term(g), 'post/%s' % tag, decode=dec)
             return ('return', None)
 
@@ -210,6 +215,8 @@ def verify(spec):
         if not c.obligations:
             res.error = ('checker-error', '%s generated zero obligations' % spec.label)
     except OutOfSubset as e:
+        if os.environ.get('PYVC_TB'):
+            traceback.print_exc()
         res.error = ('out-of-subset', str(e))
     except CheckerError as e:
         res.error = ('checker-error', str(e))
